@@ -11,7 +11,9 @@ import (
 	"io"
 	"net"
 	"strings"
+	"sync"
 	"time"
+	"verifharness/vt"
 
 	"go.nanomsg.org/mangos/v3"
 	"go.nanomsg.org/mangos/v3/protocol/pair"
@@ -100,6 +102,127 @@ func c10MidHandshake(c *Ctx) {
 			}
 			_ = conn.Close()
 			c10settle()
+		}
+	}
+}
+
+// several peers have completed the handshake but have not been accepted yet (the accept loop is held up inside an
+// Attaching hook) when the socket is closed: every one of those connections must be closed
+func c10QueuedHandshakes(c *Ctx) {
+	c10settle()
+	for ti, tr := range e2eTransports {
+		if tr.name != "tcp" && tr.name != "ipc" {
+			continue
+		}
+		s, _ := pair.NewSocket()
+		release := make(chan struct{})
+		var once sync.Once
+		parked := make(chan struct{})
+		s.SetPipeEventHook(func(ev mangos.PipeEvent, p mangos.Pipe) {
+			if ev == mangos.PipeEventAttaching {
+				once.Do(func() { close(parked) })
+				<-release
+			}
+		})
+		l, err := s.NewListener(tr.addr(9870+ti), nil)
+		if err == nil {
+			err = l.Listen()
+		}
+		if err != nil {
+			close(release)
+			_ = s.Close()
+			continue
+		}
+		addr := l.Address()
+		network, target := "tcp", strings.TrimPrefix(addr, "tcp://")
+		if tr.name == "ipc" {
+			network, target = "unix", strings.TrimPrefix(addr, "ipc://")
+		}
+		hdr := []byte{0, 'S', 'P', 0, 0, byte(mangos.ProtoPair), 0, 0}
+		var conns []net.Conn
+		for i := 0; i < 4; i++ {
+			cn, err := net.Dial(network, target)
+			if err != nil {
+				break
+			}
+			_, _ = cn.Write(hdr)
+			conns = append(conns, cn)
+			if i == 0 {
+				select { // the first one is inside the hook; the others queue up behind it, handshakes completed
+				case <-parked:
+				case <-time.After(time.Second):
+				}
+			}
+		}
+		time.Sleep(60 * time.Millisecond)
+		class := "close-queued-handshakes " + tr.name
+		done := make(chan error, 1)
+		go func() { done <- s.Close() }()
+		time.Sleep(50 * time.Millisecond)
+		close(release)
+		select {
+		case err := <-done:
+			c10Line(c, class+" close", "close", vp_errname(err))
+		case <-time.After(3 * time.Second):
+			c10Line(c, class+" close", "close", "hang")
+			c.Violate(fmt.Sprintf("close (%s): Socket.Close did not return within 3 s with handshaken connections waiting to be accepted", tr.name), nil)
+		}
+		for i, cn := range conns {
+			obs := peerSees(cn, 700*time.Millisecond)
+			c10Line(c, fmt.Sprintf("%s conn", class), "midhandshake-conn", obs)
+			if obs != "closed" {
+				c.Violate(fmt.Sprintf("close (%s): connection %d of %d that had completed the handshake and was waiting to be accepted when the socket was closed is still open on the library's side 700 ms after Close returned", tr.name, i+1, len(conns)),
+					map[string]interface{}{"transport": tr.name, "history": []string{"Listen", "Attaching hook parks the accept loop", "4 raw peers connect and send their SP header", "Socket.Close", fmt.Sprintf("peer %d reads: no EOF", i+1)}})
+			}
+			_ = cn.Close()
+		}
+		libs := c10settle()
+		c10Line(c, class+" goroutines", "goroutines", fmt.Sprint(len(libs)))
+		if len(libs) > 0 {
+			c.Violate(fmt.Sprintf("close (%s): %d goroutine(s) of the library remain after Socket.Close with handshaken connections waiting: %s", tr.name, len(libs), strings.Join(libs, " | ")), nil)
+		}
+	}
+}
+
+// Close lands while a Dial is still creating its dialer (the transport is slow to configure): the Dial must fail with
+// a closed error and nothing may dial afterwards
+func c10DialRacingClose(c *Ctx) {
+	for i := 0; i < 3; i++ {
+		s, _ := pair.NewSocket()
+		_ = s.SetOption(mangos.OptionReconnectTime, 5*time.Millisecond)
+		_ = s.SetOption(mangos.OptionMaxReconnectTime, 5*time.Millisecond)
+		url := fmt.Sprintf("verif://c10-dialrace-%d-%d", c.Seed, i)
+		vt.SetOptDelay(60 * time.Millisecond)
+		res := make(chan error, 1)
+		go func() { res <- s.DialOptions(url, map[string]interface{}{mangos.OptionDialAsynch: true}) }()
+		time.Sleep(20 * time.Millisecond)
+		cerr := s.Close()
+		var derr error
+		select {
+		case derr = <-res:
+		case <-time.After(2 * time.Second):
+			derr = fmt.Errorf("hang")
+		}
+		vt.SetOptDelay(0)
+		class := "close-during-dial"
+		c10Line(c, class+" close", "close", vp_errname(cerr))
+		dobs := vp_errname2(derr)
+		c10Line(c, class+" dial", "after-dial", dobs)
+		// whatever the dialer does from now on is activity on a closed socket
+		attempts := 0
+		if td := vt.T.Dialer(url); td != nil {
+			for k := 0; k < 10; k++ {
+				for td.Parked() > 0 {
+					td.Script(vt.DialResult{Err: mangos.ErrConnRefused})
+				}
+				time.Sleep(15 * time.Millisecond)
+			}
+			attempts = td.NAttempts()
+		}
+		c10Line(c, class+" redial", "redial", fmt.Sprint(attempts))
+		if dobs != "closed" || attempts > 0 {
+			c.Violate(fmt.Sprintf("close during Dial: Socket.Close returned while Dial was still setting up its dialer; Dial then returned %s and the dialer made %d connection attempt(s) on the closed socket within 150 ms", dobs, attempts),
+				map[string]interface{}{"history": []string{"Dial (asynchronous; transport slow to configure)", "Socket.Close", "Dial returns " + dobs, fmt.Sprintf("%d connection attempts afterwards", attempts)}})
 		}
 	}
 }
